@@ -128,4 +128,10 @@ var specs = map[string]propSpec{
 		Rule: "rapid generates a schema (nesting <= 3, 60% of attributes addressable (as reference / as expression type; static + attribute-name steps), blocks addressable by static / label / attribute-value steps with every flag combination the schema validator accepts: as reference, as type of an attribute, body-as-data +- infer +- self-ref, dependent-body-as-data +- infer +- self-ref, unknown nested refs; targetable-as; any-attribute bodies; dependent bodies boosted) and 1-2 files rendered from it (typed expressions, missing / surplus labels, unknown items). Reference model on the serialisable schema + parser AST: for every addressable block / attribute of the effective schema one expected target per flag with address from the declared steps, scope, range = item extent, definition range = header / name, and the type where the model determines it (type-less; type declaration; object type of the static or selected dependent body, wrapped per block type; dynamic; literal type) plus count.index / each.key / each.value for declared extension attributes. Completeness: each expected target is collected. Soundness: each collected top-level target has the extent of an addressable declaration (or a targetable-as block, an extension attribute, a self-addressing reference) and that declaration's address; nothing is collected inside unknown attributes / blocks. Structure: nested address = parent + one step, list indexes 0..n-1 in source order, elements of a written attribute value inside the value's range. evaluations = targets compared. Non-trivial = at least two addressing classes present; distinct = SHA-1 of the case JSON.",
 		Assumptions: append([]string{"don't care: type of a block with both body-as-data and dependent-body-as-data when a dependent body is selected (DESIGN D22); types of as-expression-type attributes other than plain literals; range of aggregate list/set/map block targets; dynamic blocks"}, commonAssumptions...),
 	},
+	"C11": {
+		Test: "TestC11", Quick: 1500, Thorough: 10000, Shards: 16,
+		QuickTimeout: 10 * time.Minute, ThoroughTimeout: 40 * time.Minute,
+		Rule: "rapid generates a Terraform-like world of 1-2 paths (variables typed by a type declaration and optionally type-less, locals addressable by expression type with nested list/map/object elements, resources with body-as-data / dependent-body-as-data / self references / count / for_each / nested blocks, dynamic-typed data blocks, outputs, modules whose inputs are path origins into the other path, implied origins, a direct origin on the module source) and configurations that reference exact, nested, missing, block-local (count.index, each.*, self.*) and cross-path addresses inside plain values, templates, lists, objects, calls, conditionals and operators; names come from pools of 3 so that references resolve. For every collected origin (cursor at its start, middle and end): go-to-definition must be sound (each reported declaration is a collected declaration of the path the origin points to, whose address equals the origin's - or is a prefix of it for dynamic-typed declarations - or whose local address equals it with the origin inside the declaring block, and which satisfies one scope/type constraint), complete (every collected declaration with exactly the origin's address that satisfies a constraint is reported), and inverse (find-references at each reported definition reports the origin). evaluations = lookups. Non-trivial = at least one origin resolved; distinct = SHA-1 of the case JSON.",
+		Assumptions: append([]string{"the sets of targets and origins are the library's own collectors' output on the generated world (the property quantifies over collected sets); resolution is judged by an independent matching predicate written from the statement"}, commonAssumptions...),
+	},
 }
